@@ -30,6 +30,24 @@ Theorem C14_shape :
 Proof. exact shape. Qed.
 Print Assumptions C14_shape.
 
+(* ---- "the frames name the functions on the crashing goroutine's stack": the
+   name, expanded by DecodeStack, is the uncompressed rendering - one line
+   Function:line,+0xoffset per frame - of the frames the symboliser reports
+   for those (at most 16) pcs, whenever it is not truncated.  Premise on the
+   symboliser: function names have no newline and no lone-ditto package path.
+   (Which pcs a genuine traceback yields is the runtime's business: tested.) *)
+Theorem C14_name_lists_frames :
+  forall (symb : list N -> list frame) (child : N) (crash name : bytes),
+  (forall p, Forall (fun f => fn_roundtrips (fr_func f) = true) (symb p)) ->
+  counter_name symb child crash = Ok name ->
+  name = lit_no_running \/
+  exists pcs, pcs <> [] /\ (length pcs <= 16)%nat /\
+    name = encode_frames c_crash_prefix (symb pcs) /\
+    (is_truncated c_crash_prefix (symb pcs) = false ->
+     decode_stack name = render_plain c_crash_prefix (symb pcs)).
+Proof. exact name_lists_frames. Qed.
+Print Assumptions C14_name_lists_frames.
+
 (* ---- "never longer than the counter-name size limit" (uses C15's bound) *)
 Theorem C14_length_bound :
   forall (symb : list N -> list frame) (child : N) (crash name : bytes),
